@@ -12,12 +12,12 @@ def run(tier, seed):
         "gen": [
             dict(name="C45_exh", consts=ec.consts({3}, {"wnew", "wfree", "add", "loop"}, 3 if q else 4, durs=(1,))),
             dict(name="C45_rand", consts=ec.consts({1, 3, 4}, A, 14 if q else 24, durs=(0, 1, 2)),
-                 simulate=100 if q else 1200, depth=600),
+                 simulate=100 if q else 400, depth=600),
             # watchers that touch the base (add a 1-tick timer, activate an event, delete a timer) from the prepare / check phase:
             # the loop still waits with the timeout the prepare watchers were told
             dict(name="C45_rand_scr", consts=ec.consts({1, 3, 4}, {"wnew", "wfree", "wscr", "add", "loop", "flags", "adv", "del"}, 12 if q else 18,
                                                        durs=(0, 2, 3)),
-                 simulate=60 if q else 600, depth=600, constraint="GenConstraintNT"),
+                 simulate=60 if q else 300, depth=600, constraint="GenConstraintNT"),
         ],
         "need_ops": ["wnew", "wfree", "loop", "cb:prep", "cb:check", "cb:cb"],
         "rule": "histories of watcher creation/free (incl. from inside watcher callbacks: free self, free next, free previous, "
